@@ -3,7 +3,10 @@
 
     [EInv ep sd] (written out in C10E_def_invariant): [sd] has no duplicates and the same elements as the keys
     [tracked] of all table entries (which are pairwise distinct); every entry's unregistered rekey successor, if any,
-    has the addresses of the entry and no CHILD_SA; creation indices are unique and below [next_cid].
+    has the addresses of the entry and no CHILD_SA; creation indices are unique and below [next_cid]; the outbound
+    SPI of every tracked CHILD_SA has four bytes ([Spi4], written out in C10H_def_spi4: create_child_sa raises before
+    its first netlink request otherwise, so no other CHILD_SA is ever tracked - and delete_child_sas, which would
+    raise on such a CHILD_SA and leave its kernel SAs behind, never meets one).
     [iter_ok E ep tnow tape ev] ("no handler call of this iteration ended Stuck", EndpointSad.v sections C and E): the
     tape (random draws, kernel verdicts) matched what every handler call asked for.  It follows the control flow of
     the iteration up to each handler call and states [st <> -1] for its result / [<> Stuck] for delete_child_sas,
@@ -22,7 +25,8 @@ Theorem C10E_def_invariant : forall E (ep : endpoint E) sd,
    /\ (forall k, In k sd <-> In k (flat_map (fun x => tracked (inner (hdl_iface E) (snd x))) (table E ep)))
    /\ NoDup (flat_map (fun x => tracked (inner (hdl_iface E) (snd x))) (table E ep))
    /\ (forall c s, In (c, s) (table E ep) -> WF (inner (hdl_iface E) s))
-   /\ NoDup (map fst (table E ep)) /\ (forall c, In c (map fst (table E ep)) -> (c < next_cid E ep)%nat))
+   /\ NoDup (map fst (table E ep)) /\ (forall c, In c (map fst (table E ep)) -> (c < next_cid E ep)%nat)
+   /\ (forall c s, In (c, s) (table E ep) -> Spi4 (inner (hdl_iface E) s)))
   /\ (forall c s, In (c, s) (table E ep) ->
         forall n, new_sa (inner (hdl_iface E) s) = Some n ->
           my_addr n = my_addr (co (inner (hdl_iface E) s)) /\ peer_addr n = peer_addr (co (inner (hdl_iface E) s))
@@ -58,6 +62,12 @@ Theorem C10E_no_orphan : forall E (ep : endpoint E) sd k,
   EInv E ep sd -> In k sd -> exists c s, In (c, s) (table E ep) /\ In k (tracked (inner (hdl_iface E) s)).
 Proof. exact einv_owner. Qed.
 Print Assumptions C10E_no_orphan.
+
+(** consequence: the outbound SPI of every CHILD_SA of every IkeSa in the table fits the four-byte netlink field *)
+Theorem C10E_spi_fits : forall E (ep : endpoint E) sd c s ch,
+  EInv E ep sd -> In (c, s) (table E ep) -> In ch (children (co (inner (hdl_iface E) s))) -> length (c_out ch) = 4%nat.
+Proof. exact einv_spi4. Qed.
+Print Assumptions C10E_spi_fits.
 
 (** non-vacuity: an ACQUIRE creating an initiator IkeSa, a message for an unknown SPI, a non-IKE datagram *)
 Theorem C10E_example_acquire :
